@@ -459,7 +459,8 @@ def check(pid, argv=None):
             run.notes["t_observe_repo_tests"] = round(time.time() - t1, 1)
         n = COUNTS[run.tier]
         t1 = time.time()
-        hists = [make_history(pid, run.seed, i) for i in range(n)]
+        with C.memory_guard():
+            hists = [make_history(pid, run.seed, i) for i in range(n)]
         if pid in ("C08", "C09", "C10"):
             # spec -> code: every history TLC enumerates over the reference-graph model (a sample of them in this tier)
             from . import heapgen
@@ -469,7 +470,8 @@ def check(pid, argv=None):
             relevant = [m for m in models if sum(1 for ev in m["hist"] if ev["op"] in want) >= (2 if pid == "C08" else 1)]
             rng.shuffle(relevant)
             take = relevant[:heapgen.TIERS[run.tier]["sample"]]
-            gh = [heapgen.replay(m, run.seed, i) for i, m in enumerate(take)]
+            with C.memory_guard():
+                gh = [heapgen.replay(m, run.seed, i) for i, m in enumerate(take)]
             run.notes["model_histories"] = dict(enumerated_by_tlc=len(models), relevant=len(relevant), replayed=len(gh),
                                                 followed_to_the_end=sum(1 for h in gh if h["followed"]),
                                                 graph_mismatch=sum(1 for h in gh if h["graph_mismatch"]))
